@@ -1,3 +1,7 @@
-import AsmjitVerif.Props.C07
-open AsmjitVerif.Frame
-#eval (exFrame.finalize.localOff, exFrame.finalize.daOff, exFrame.finalize.ppSize, exFrame.finalize.stackAdj)
+#check @List.Nodup.map_on
+#check @List.nodup_map_iff
+#check @List.Pairwise.map
+#check @List.nodup_map_iff_inj_on
+example (l : List Nat) (g : Nat) (h : l.Nodup) : (l.map (fun id => (g, id))).Nodup := by
+  rw [List.Nodup, List.pairwise_map]
+  exact List.Pairwise.imp (fun hab h => hab (Prod.mk.inj h).2) h
